@@ -136,6 +136,26 @@ def check(repo: Repo, run: Run) -> None:
         run.ob("C03.S1", f"macro_{name}", bool(tm) and has and arity_ok,
                f"the transpiler emits celpy.evaluation.macro_{name}(activation, bind, body, source): " + ("defined with 4 parameters" if has and arity_ok else "no such function in celpy.evaluation - the macro works interpreted and fails compiled"),
                str(ev.path))
+    # S3: sibling agreement on evaluation extent: the interpreter's macro branches fold over every element
+    # (reduce / sum / map / filter over the whole list); a compiled helper that leaves its loop early skips
+    # elements whose predicate would be an error
+    for name in sorted(mt):
+        q = f"macro_{name}"
+        if not (ev.has(q) and isinstance(ev.top(q), ast.FunctionDef)):
+            continue
+        fnm = ev.func(q)
+        early = []
+        for loop in [n for n in ast.walk(fnm) if isinstance(n, (ast.For, ast.While))]:
+            for n in ast.walk(loop):
+                if isinstance(n, (ast.Break, ast.Return)):
+                    early.append(type(n).__name__.lower())
+        for c in ast.walk(fnm):
+            if isinstance(c, ast.Call) and dotted(c.func) in ("next", "any", "all", "itertools.takewhile", "itertools.islice"):
+                early.append(dotted(c.func))
+        run.ob("C03.S3", f"{q}|evaluates-every-element", not early,
+               f"{q} " + ("evaluates the body for every element, as the interpreter does" if not early else
+                          f"can stop before the last element ({', '.join(sorted(set(early)))}): an element whose body is an error is skipped, so the interpreter reports an error where the compiled runner returns a value"),
+               ev.loc(fnm))
     for fname, engine in (("ident_arg", P1), ("primary", E)):
         s = ast.unparse(engine[fname])
         run.ob("C03.S1", f"{'Phase1Transpiler' if engine is P1 else 'Evaluator'}.{fname}|has,dyn", "'has'" in s and "'dyn'" in s, "has() and dyn() are special-cased", ev.loc(engine[fname]))
